@@ -14,6 +14,8 @@ def cubes(tier):
         # interference positions also between two queries of the writer (39 positions instead of 21)
         out += [dict(cls="local", nsteps=2, probe=0, wipe=w, reads=True, span=4, e_lo=lo, e_hi=lo + 7, _w=4) for w in (False, True) for lo in (-1, 7, 15, 23, 31)]
         out += [dict(cls="local", nsteps=2, probe=i, second="wipe", reads=True, span=3, e_lo=lo, e_hi=lo + 7, _w=4) for i in (0, 2) for lo in (-1, 7, 15, 23, 31)]
+        # the other writer is a thread of this process sharing the State object (per-thread SQLite connections in the model)
+        out += [dict(cls="local", nsteps=1, a1=a, threads=True) for a in (9, 10, 11)]
         return out
     out = [dict(cls=c, nsteps=2, a1=a, a2=b, _w=8) for c in ("local", "base") for a in REP for b in REP]
     out += [dict(cls=c, nsteps=1, a1=a, upload=u) for c in ("local", "base") for a in range(NACT) for u in (False, True)]
@@ -22,6 +24,7 @@ def cubes(tier):
     out += [dict(cls="local", nsteps=2, probe=i, wipe=w, reads=True, span=8, e_lo=lo, e_hi=lo + 5, _w=6) for i in range(3) for w in (False, True)
             for lo in range(-1, 40, 6)]
     out += [dict(cls="local", nsteps=1, a1=a, reads=True) for a in range(NACT)]
+    out += [dict(cls=c, nsteps=2, a1=a, a2=b, threads=True, _w=4) for c in ("local", "base") for a in (9, 10, 11) for b in (9, 10, 11)]
     out += [dict(cls="local", nsteps=2, probe=i, second="wipe", reads=True, span=6, e_lo=lo, e_hi=lo + 5, _w=6) for i in range(3) for lo in range(-1, 40, 6)]
     return out
 
